@@ -793,6 +793,14 @@ func ffOp(backend, op string, a []val) string {
 			ff.Butterfly(&x, &y)
 		}
 		return ffRaw(&x) + " " + ffRaw(&y)
+	case "butterflyalias": // Butterfly(&x, &x): both outputs share one object
+		x := el(0)
+		if gen {
+			ff.VerifButterflyGeneric(&x, &x)
+		} else {
+			ff.Butterfly(&x, &x)
+		}
+		return ffRaw(&x)
 	case "exp":
 		x := el(0)
 		var z ff.Element
